@@ -8,10 +8,30 @@
 //! `AS OF TX <tx of s>` / `AS OF TIME <committed_at of s>` / in a request bound to the snapshot
 //! token of `s`, and must be equal. Plus: the epistemic payload of every Assertion / Evidence is
 //! identical in all of its version rows (direct scan of `element_versions`).
+//!
+//! Section `late_env`: the same monitor over Spaces (the default one or a second one) that commit
+//! writes under Core alone BEFORE anything is activated in them, so that the first activation -
+//! through `activate_schema`, `ensure_schema` or `install_and_activate` - is a point in the middle
+//! of the history: answers recorded under Schema Environment 0 (errors included: a type that did
+//! not exist yet is `SchemaSymbolNotFound`, SNAPSHOT / DESCRIBE SCHEMA ENVIRONMENT name version 0)
+//! must replay as they were, and every activation in a Space with history takes a coordinate.
+//!
+//! Section `refused`: "only an explicit purge removes the past". Statements that do not commit -
+//! refused while planned, refused by the commit-time validation of the write set, refused for the
+//! session's authority, dry runs - with PURGE clauses that pass planning among CREATE / UPDATE /
+//! ARCHIVE / TOMBSTONE / MERGE / RETRACT / SUPERSEDE / SET RETENTION clauses: after each of them
+//! the recorded answers (a by-id query per element at every coordinate plus part of the battery)
+//! are replayed and must be unchanged. One PURGE per case is committed at the end: it may change
+//! the past of what it erased and of nothing else.
 
-use anda_cognitive_nexus::CognitiveNexus;
-use anda_cognitive_nexus::nexus::DEFAULT_SPACE;
+use anda_cognitive_nexus::governance::{
+    AuthContext, SYSTEM_PRINCIPAL,
+    rows::{AuthorityScope, principal_class},
+    store::{GrantDraft, PrincipalDraft},
+};
+use anda_cognitive_nexus::nexus::{DEFAULT_SPACE, Session};
 use anda_cognitive_nexus::schema::{PackageState, SchemaLock, SchemaPackage};
+use anda_cognitive_nexus::{CognitiveNexus, SpaceDraft};
 use anda_kip::{Executor, Request};
 use object_store::memory::InMemory;
 use serde_json::{Map, Value};
@@ -118,6 +138,10 @@ struct Q {
     ordered: bool,
     /// top-level members of the answer that name the read coordinate itself (excluded)
     drop_keys: &'static [&'static str],
+    /// `space.id` of the request envelope (`None` = the default Space)
+    space: Option<String>,
+    /// the element a by-id query is about
+    about: Option<String>,
 }
 
 impl Q {
@@ -174,7 +198,7 @@ fn shape_name(qu: &Q) -> String {
 }
 
 fn q(family: &'static str, head: impl Into<String>) -> Q {
-    Q { family, head: head.into(), tail: String::new(), params: Map::new(), ordered: false, drop_keys: &[] }
+    Q { family, head: head.into(), tail: String::new(), params: Map::new(), ordered: false, drop_keys: &[], space: None, about: None }
 }
 
 impl Q {
@@ -374,12 +398,15 @@ fn shown(qu: &Q, as_of: &str) -> String {
 
 /// The query as written (no AS OF) in a request bound to a snapshot token.
 async fn ask_bound(nexus: &CognitiveNexus, qu: &Q, token: &str) -> Result<Result<Value, String>, String> {
-    let request: Request = serde_json::from_value(json!({
+    let mut envelope = json!({
         "kip": "2.0",
         "read": {"snapshot_token": token},
         "operations": [{"command": qu.text(""), "parameters": Value::Object(qu.params.clone())}],
-    }))
-    .map_err(|e| format!("request envelope: {e}"))?;
+    });
+    if let Some(sp) = &qu.space {
+        envelope["space"] = json!({"id": sp});
+    }
+    let request: Request = serde_json::from_value(envelope).map_err(|e| format!("request envelope: {e}"))?;
     let parsed = request.operations[0].parse().map_err(|e| format!("battery query does not parse: {}: {}", e.name(), e.message))?;
     let response = nexus.execute(parsed, &request, &request.operations[0]).await;
     let raw = serde_json::to_value(&response).map_err(|e| format!("response encode: {e}"))?;
@@ -402,6 +429,7 @@ async fn ask(nexus: &CognitiveNexus, qu: &Q, as_of: &str) -> Result<Result<Value
     }
     let mut cmd = Cmd::new(qu.text(as_of));
     cmd.params = qu.params.clone();
+    cmd.space = qu.space.clone();
     let o = exec(&Via::System(nexus), &cmd).await?;
     if let Some(p) = o.parse_error {
         return Err(format!("battery query does not parse: {p}: {}", cmd.text));
@@ -633,12 +661,188 @@ fn check_payloads(scan: &Scan, st: &mut Stats, ctx: &dyn Fn() -> Value) {
 }
 
 // ---------------------------------------------------------------------------------------------
+// the shape of a history
 
-fn hist_case(case: u64, rng: &mut Rng, st: &mut Stats, n_commits: usize, mid_replays: usize) {
-    set_case("hist", case);
-    let r = vcore::run::block_on(hist_case_async(case, rng, st, n_commits, mid_replays));
+/// A second Space of the same Nexus: a history may live there instead of in the default one.
+const SECOND_SPACE: &str = "kip:space:c18";
+
+#[derive(Clone, Debug)]
+struct Shape {
+    section: &'static str,
+    /// the Space the history lives in
+    space: String,
+    /// the Space commits writes under Core alone (Schema Environment 0) BEFORE anything is
+    /// activated in it: the first activation is a point in the middle of its history
+    late: bool,
+    /// the host API every activation inside the history goes through
+    entry: &'static str,
+}
+
+impl Shape {
+    fn standard() -> Shape {
+        Shape { section: "hist", space: DEFAULT_SPACE.to_string(), late: false, entry: "activate_schema" }
+    }
+    fn space_opt(&self) -> Option<String> {
+        if self.space == DEFAULT_SPACE { None } else { Some(self.space.clone()) }
+    }
+}
+
+/// The scan as seen from `space`: the shared fixtures (`world_of`, `space_seq`, the journal
+/// filters) look at the default Space, so for a history that lives in another Space the two
+/// names are exchanged in the copy the harness reads.
+fn relabel(mut sc: Scan, space: &str) -> Scan {
+    if space == DEFAULT_SPACE {
+        return sc;
+    }
+    for (c, rows) in sc.iter_mut() {
+        let field = if *c == "spaces" { "space_id" } else { "space" };
+        for row in rows.values_mut() {
+            let cur = row.get(field).and_then(|v| v.as_str()).map(|s| s.to_string());
+            match cur.as_deref() {
+                Some(s) if s == space => row[field] = json!(DEFAULT_SPACE),
+                Some(s) if s == DEFAULT_SPACE => row[field] = json!("<the default Space>"),
+                _ => {}
+            }
+        }
+    }
+    sc
+}
+
+async fn scan_in(nexus: &CognitiveNexus, space: &str) -> Result<Scan, String> {
+    Ok(relabel(scan(nexus).await?, space))
+}
+
+/// the Schema Environment version the Space row names (after `relabel`)
+fn env_version(sc: &Scan) -> u64 {
+    sc.get("spaces")
+        .and_then(|m| m.values().find(|r| r["space_id"] == DEFAULT_SPACE).and_then(|r| r["schema_environment_version"].as_u64()))
+        .unwrap_or(0)
+}
+
+async fn read_in(nexus: &CognitiveNexus, text: &str, space: &Option<String>) -> Result<Value, String> {
+    let mut cmd = Cmd::new(text);
+    cmd.space = space.clone();
+    let o = exec(&Via::System(nexus), &cmd).await?;
+    if let Some(p) = o.parse_error {
+        return Err(format!("HARNESS-PARSE {p}"));
+    }
+    if o.succeeded { Ok(o.result) } else { Err(o.error_code) }
+}
+
+async fn install_profile(nexus: &CognitiveNexus) -> Result<(), String> {
+    let pkg = SchemaPackage::parse(anda_cognitive_nexus::profiles::COGNITIVE_MEMORY).map_err(|e| format!("{e:?}"))?;
+    nexus.install_package(&pkg, "verif").await.map_err(|e| format!("install profile: {e:?}"))?;
+    Ok(())
+}
+
+/// One activation through one of the three host entry points (they all end in
+/// `Store::activate_schema`; the artifacts are installed already, installing again is a no-op).
+async fn activate(nexus: &CognitiveNexus, space: &str, to: Env, entry: &str) -> Result<(), String> {
+    let r = match entry {
+        "ensure_schema" => nexus.ensure_schema(space, lock_of(to)).await.map(|_| ()),
+        "install_and_activate" => {
+            let reads = reads_package(if to == Env::Plain { "1.0.0" } else { "2.0.0" }, to == Env::Functional);
+            let artifacts: Vec<(&str, &str)> = match to {
+                Env::Core => vec![],
+                _ => vec![("verif", anda_cognitive_nexus::profiles::COGNITIVE_MEMORY), ("verif", reads.as_str())],
+            };
+            nexus.install_and_activate(&artifacts, space).await.map(|_| ())
+        }
+        _ => nexus.activate_schema(space, lock_of(to)).await.map(|_| ()),
+    };
+    r.map_err(|e| format!("{entry}: {e:?}"))
+}
+
+/// A statement that Core alone can carry: raw Evidence, Activities and their lifecycle (no
+/// Concept type, no predicate exists before a profile is activated).
+fn core_statement(rng: &mut Rng, g: &mut Gen, w: &World) -> Stmt {
+    let ev: Vec<&El> = w.evidence.iter().filter(|e| e.state == "active" && e.status == "active").collect();
+    let xs: Vec<&El> = w.activities.iter().filter(|x| x.state == "active" && (x.status == "pending" || x.status == "running")).collect();
+    let shelvable: Vec<&El> = w.evidence.iter().chain(w.activities.iter()).filter(|e| e.state == "active" || e.state == "archived").collect();
+    let mut clauses: Vec<(&'static str, String)> = vec![];
+    match rng.below(7) {
+        0 if !ev.is_empty() => {
+            let e = rng.pick(&ev).id.clone();
+            let h = format!("c{}", g.next());
+            clauses.push(("create_evidence", format!("CREATE EVIDENCE ?{h} {{ SET FIELDS {{evidence_class: \"user_statement\", payload: {}}} }}", jstr(&g.name("fix")))));
+            clauses.push(("correct", format!("CORRECT EVIDENCE {} BY ?{h}", jstr(&e))));
+        }
+        1 if !xs.is_empty() => {
+            let x = rng.pick(&xs).id.clone();
+            let to = *rng.pick(&["running", "completed", "failed"]);
+            clauses.push(("transition", format!("TRANSITION ACTIVITY {} TO {}", jstr(&x), jstr(to))));
+        }
+        2 if !shelvable.is_empty() => {
+            let e = rng.pick(&shelvable).id.clone();
+            if rng.chance(2, 3) {
+                clauses.push(("archive", format!("ARCHIVE {}", jstr(&e))));
+            } else {
+                clauses.push(("tombstone", format!("TOMBSTONE {}", jstr(&e))));
+            }
+        }
+        3 if !shelvable.is_empty() => {
+            let e = rng.pick(&shelvable).id.clone();
+            clauses.push(("set_retention", format!("SET RETENTION {} {{ retention_class: \"standard\", expires_at: \"203{}-01-01T00:00:00Z\" }}", jstr(&e), rng.below(9))));
+        }
+        _ => {}
+    }
+    if clauses.is_empty() || rng.bool() {
+        let (eh, xh) = (format!("e{}", g.next()), format!("x{}", g.next()));
+        let with_x = rng.bool();
+        let mut body = format!("SET FIELDS {{evidence_class: \"user_statement\", payload: {}}}", jstr(&g.name("payload")));
+        if with_x {
+            body.push_str(&format!(" SET STRUCTURAL {{ (\"generated_by\", ?{xh}) }}"));
+        }
+        clauses.push(("create_evidence", format!("CREATE EVIDENCE ?{eh} {{ {body} }}")));
+        if with_x {
+            let cls = *rng.pick(&["reflection", "semantic_consolidation", "tool_execution"]);
+            let status = if rng.chance(1, 4) { ", status: \"completed\"" } else { "" };
+            clauses.push(("create_activity", format!("CREATE ACTIVITY ?{xh} {{ SET FIELDS {{activity_class: {}{status}}} SET STRUCTURAL {{ (\"outputs\", ?{eh}) }} }}", jstr(cls))));
+        }
+    }
+    let text = if clauses.len() == 1 && rng.bool() {
+        clauses[0].1.clone()
+    } else {
+        format!("MUTATE {{\n  {}\n}}", clauses.iter().map(|c| c.1.as_str()).collect::<Vec<_>>().join("\n  "))
+    };
+    Stmt { cmd: Cmd::new(text), kinds: clauses.iter().map(|c| c.0).collect(), fail: None, dry: "none", restricted: false, retry_of_previous: false }
+}
+
+/// mutation kinds of a commit, from the receipt's change list
+fn kinds_of_changes(out: &Outcome) -> Vec<&'static str> {
+    let mut ks: Vec<&'static str> = vec![];
+    for (id, op, _) in out.changes() {
+        let kind = match (op.as_str(), &id[..1]) {
+            ("create", "C") => "create_concept",
+            ("create", "P") => "create_proposition",
+            ("create", "A") => "create_assertion",
+            ("create", "E") => "create_evidence",
+            ("create", "X") => "create_activity",
+            ("update", "P") => "update_proposition",
+            ("update", _) => "update_concept",
+            ("archive", _) => "archive",
+            ("tombstone", _) => "tombstone",
+            ("retract", _) => "retract",
+            ("supersede", _) => "supersede",
+            ("merge", _) => "merge",
+            ("set_retention", _) => "set_retention",
+            ("transition", _) => "transition",
+            ("correct", _) => "correct_evidence",
+            ("purge", _) => "purge",
+            _ => "other",
+        };
+        ks.push(kind);
+    }
+    ks
+}
+
+// ---------------------------------------------------------------------------------------------
+
+fn hist_case(case: u64, rng: &mut Rng, st: &mut Stats, n_commits: usize, mid_replays: usize, shape: &Shape) {
+    set_case(shape.section, case);
+    let r = vcore::run::block_on(hist_case_async(case, rng, st, n_commits, mid_replays, shape));
     if let Err(e) = r {
-        st.inconclusive(format!("C18: harness trouble: {e}"));
+        st.inconclusive(format!("C18 {}: harness trouble: {e}", shape.section));
     }
 }
 
@@ -652,6 +856,8 @@ async fn replay_one(
     only: Option<&BTreeSet<usize>>,
     // queries already reported as different under another AS OF form at this coordinate
     known_diff: Option<&BTreeSet<usize>>,
+    // a signature of its own instead of `C18/replay/<family>/<shape>/<form>`
+    sig: Option<&str>,
     st: &mut Stats,
     ctx: &dyn Fn() -> Value,
 ) -> Result<BTreeSet<usize>, String> {
@@ -688,7 +894,14 @@ async fn replay_one(
             }
         }
         match compare(live, &got, qu) {
-            Cmp::Equal => st.count("replay_equal"),
+            Cmp::Equal => {
+                st.count("replay_equal");
+                if let Err(code) = live {
+                    // an answer that was an error when its coordinate was the present replays as
+                    // the same error
+                    st.count(&format!("replay_equal_error_answers:{code}"));
+                }
+            }
             Cmp::OrderOnly => {
                 st.count(&format!("replay_differs_in_unordered_positions_only:{}", qu.family));
                 if let (Ok(a), Ok(b)) = (live, &got) {
@@ -707,7 +920,8 @@ async fn replay_one(
                 differing.insert(i);
                 let (qu, live, got) = (qu.clone(), live.clone(), got.clone());
                 let since: Vec<&str> = since.iter().copied().collect();
-                report_once(st, &format!("C18/replay/{}/{}/{form}", qu.family, shape_name(&qu)), || {
+                let signature = sig.map(|x| x.to_string()).unwrap_or_else(|| format!("C18/replay/{}/{}/{form}", qu.family, shape_name(&qu)));
+                report_once(st, &signature, || {
                     json!({"what": "the answer AS OF a past coordinate differs from the answer recorded when that coordinate was current",
                            "query": shown(&qu, as_of), "parameters": qu.params, "recorded_at_seq": rec.seq,
                            "recorded": live.as_ref().map(|v| clip(&canon(v))).map_err(|e| e.clone()),
@@ -722,11 +936,72 @@ async fn replay_one(
     Ok(differing)
 }
 
-async fn hist_case_async(case: u64, rng: &mut Rng, st: &mut Stats, n_commits: usize, mid_replays: usize) -> Result<(), String> {
+/// The end of a history: every coordinate, every recorded query, every way of naming the
+/// coordinate; coordinate 0 is the empty Space.
+async fn final_replay(nexus: &CognitiveNexus, recorded: &[Recorded], sc: &Scan, space: &Option<String>, rng: &mut Rng, st: &mut Stats, cx: &dyn Fn() -> Value) -> Result<(), String> {
+    let journal: Vec<(u64, String)> = sc["transactions"].values().filter(|r| r["space"] == DEFAULT_SPACE)
+        .map(|r| (r["seq"].as_u64().unwrap_or(0), r["committed_at"].as_str().unwrap_or("").to_string())).collect();
+    for i in 0..recorded.len() {
+        let rec = &recorded[i];
+        let since: BTreeSet<&'static str> = recorded[i + 1..].iter().flat_map(|r| r.kinds.iter().copied()).collect();
+        st.count("coordinates_replayed_at_the_end");
+        let diff = replay_one(nexus, rec, "SEQ", &format!("AS OF SEQ {}", rec.seq), &since, None, None, None, st, cx).await?;
+        // TX and TIME resolve to the same coordinate; a seeded third of the battery each
+        let sub: BTreeSet<usize> = (0..rec.qs.len()).filter(|_| rng.chance(1, 3)).collect();
+        replay_one(nexus, rec, "TX", &format!("AS OF TX {}", jstr(&rec.tx_id)), &since, Some(&sub), Some(&diff), None, st, cx).await?;
+        // AS OF TIME names the last commit at or before the instant: usable when no later
+        // journal row carries the same (or an earlier) timestamp
+        let unique = journal.iter().all(|(s, at)| *s <= rec.seq || at.as_str() > rec.committed_at.as_str())
+            && journal.iter().all(|(s, at)| *s >= rec.seq || at.as_str() <= rec.committed_at.as_str());
+        if unique && !rec.committed_at.is_empty() {
+            let sub: BTreeSet<usize> = (0..rec.qs.len()).filter(|_| rng.chance(1, 3)).collect();
+            replay_one(nexus, rec, "TIME", &format!("AS OF TIME {}", jstr(&rec.committed_at)), &since, Some(&sub), Some(&diff), None, st, cx).await?;
+        } else {
+            st.count("as_of_time_skipped_equal_commit_timestamps");
+        }
+        // the token SNAPSHOT AS OF SEQ s hands out binds a whole request to s (KQL only)
+        match read_in(nexus, &format!("SNAPSHOT AS OF SEQ {}", rec.seq), space).await {
+            Ok(snap) if snap["snapshot_token"].is_string() => {
+                let sub: BTreeSet<usize> = (0..rec.qs.len()).filter(|i| rec.qs[*i].0.family != "meta_as_of" && rng.chance(1, 5)).collect();
+                let form = format!("{TOKEN_FORM}{}", snap["snapshot_token"].as_str().unwrap_or(""));
+                replay_one(nexus, rec, "TOKEN", &form, &since, Some(&sub), Some(&diff), None, st, cx).await?;
+            }
+            other => report_once(st, "C18/snapshot_as_of_issues_no_token", || json!({"seq": rec.seq, "answer": format!("{other:?}"), "context": cx()})),
+        }
+    }
+    // coordinate 0 is the empty Space, whatever happened later
+    for mut qu in [q("element", "FIND(?c) WHERE { ?c CONCEPT {} }"), q("tuple", "FIND(?p) WHERE { ?p PROPOSITION (?s, ?pr, ?o) }"), q("aggregate", "FIND(COUNT(?a)) WHERE { ?a ASSERTION {} }"),
+                   q("element", "FIND(?e) WHERE { ?e EVIDENCE {} }")] {
+        qu.space = space.clone();
+        let got = ask(nexus, &qu, "AS OF SEQ 0").await?;
+        st.count("replayed:SEQ0");
+        let ok = match &got {
+            Ok(v) => v.as_array().map(|a| a.is_empty() || a == &vec![json!(0)]).unwrap_or(false),
+            Err(_) => false,
+        };
+        if !ok {
+            report_once(st, "C18/replay/coordinate_zero_not_empty", || json!({"query": qu.text("AS OF SEQ 0"), "answer": format!("{got:?}"), "context": cx()}));
+        }
+    }
+    Ok(())
+}
+
+async fn hist_case_async(case: u64, rng: &mut Rng, st: &mut Stats, n_commits: usize, mid_replays: usize, shape: &Shape) -> Result<(), String> {
     let disk: Arc<dyn object_store::ObjectStore> = Arc::new(InMemory::new());
-    let db_name = format!("c18_{case}");
+    let db_name = if shape.section == "hist" { format!("c18_{case}") } else { format!("c18_{}_{case}", shape.section) };
     let mut nexus = open_nexus(disk.clone(), &db_name).await?;
-    activate_profile(&nexus).await?;
+    let space = shape.space.clone();
+    let space_opt = shape.space_opt();
+    if space_opt.is_some() {
+        nexus.store.open_or_create_space(SpaceDraft { space_id: space.clone(), name: "second".into(), owner_principal: SYSTEM_PRINCIPAL.into(), ..Default::default() })
+            .await.map_err(|e| format!("create Space: {e:?}"))?;
+    }
+    install_profile(&nexus).await?;
+    if !shape.late {
+        // the ordinary bootstrap: the profile is activated on the empty Space (documented: the
+        // first activation of a Space without history is where it starts, not a point of it)
+        nexus.activate_schema(&space, profile_lock()).await.map_err(|e| format!("{e:?}"))?;
+    }
     // half of the histories are closed and reopened once: the past must not live in caches
     let reopen_at = if rng.bool() { Some(2 + rng.usize(n_commits.saturating_sub(4).max(1))) } else { None };
     let mut g = Gen { uid: 0, tag: format!("h{case}") };
@@ -736,8 +1011,14 @@ async fn hist_case_async(case: u64, rng: &mut Rng, st: &mut Stats, n_commits: us
         nexus.install_package(&pkg, "verif").await.map_err(|e| format!("install reads package: {e:?}"))?;
     }
     let mut env = if rng.bool() { Env::Plain } else { Env::Functional };
-    nexus.activate_schema(DEFAULT_SPACE, lock_of(env)).await.map_err(|e| format!("activate_schema: {e:?}"))?;
-    let with_schema_events = rng.chance(1, 2);
+    if shape.late {
+        env = Env::Core;
+    } else {
+        nexus.activate_schema(&space, lock_of(env)).await.map_err(|e| format!("activate_schema: {e:?}"))?;
+    }
+    let with_schema_events = rng.chance(1, 2) || shape.late;
+    // late: the first activation of the Space comes after 1..=3 commits under Core alone
+    let mut first_activation_at = if shape.late { Some(1 + rng.usize(3)) } else { None };
     let mut core_only_left = 0usize;
     let mut recorded: Vec<Recorded> = vec![];
     let mut history: Vec<Value> = vec![];
@@ -753,39 +1034,70 @@ async fn hist_case_async(case: u64, rng: &mut Rng, st: &mut Stats, n_commits: us
             st.count("history_reopens");
             history.push(json!({"host": "close + CognitiveNexus::connect on the same object store"}));
         }
-        let sc = scan(&nexus).await?;
+        let sc = scan_in(&nexus, &space).await?;
         let w = world_of(&sc);
+        let seq_before = space_seq(&sc);
         // --- one history step: a KML statement or a schema activation
         let (seq, tx_id, committed_at, kinds): (u64, String, String, Vec<&'static str>);
-        let schema_step = with_schema_events && recorded.len() >= 2 && (core_only_left == 1 || (core_only_left == 0 && rng.chance(1, 6)));
+        let schema_step = match first_activation_at {
+            Some(k) => recorded.len() >= k,
+            None => with_schema_events && recorded.len() >= 2 && (core_only_left == 1 || (core_only_left == 0 && rng.chance(1, 6))),
+        };
         if schema_step {
+            let first_after_writes = first_activation_at.take().is_some();
             let to = match env {
                 Env::Core => if rng.bool() { Env::Plain } else { Env::Functional },
                 Env::Plain => if rng.chance(2, 3) { Env::Functional } else { Env::Core },
                 Env::Functional => if rng.chance(1, 2) { Env::Plain } else { Env::Core },
             };
             let to_core = to == Env::Core;
-            nexus.activate_schema(DEFAULT_SPACE, lock_of(to)).await.map_err(|e| format!("activate_schema: {e:?}"))?;
+            let version_before = env_version(&sc);
+            activate(&nexus, &space, to, shape.entry).await?;
             env = to;
             core_only_left = if to_core { 1 + rng.usize(2) + 1 } else { 0 };
-            let sc2 = scan(&nexus).await?;
+            let sc2 = scan_in(&nexus, &space).await?;
             let s = space_seq(&sc2);
-            let row = sc2["transactions"].values().find(|r| r["seq"].as_u64() == Some(s) && r["space"] == DEFAULT_SPACE)
-                .ok_or("activation left no journal row")?.clone();
+            st.count(&format!("schema_activations_via:{}", shape.entry));
+            if first_after_writes {
+                st.count("first_activations_after_committed_writes");
+                st.count(&format!("first_activation_after_committed_writes_via:{}", shape.entry));
+                st.count(if space_opt.is_some() { "first_activation_after_committed_writes_in:second_space" } else { "first_activation_after_committed_writes_in:default_space" });
+            }
+            // "An activation is a transaction like any other" (store/history.rs; tests/history.rs:
+            // a later activation has a real history coordinate): in a Space that has committed
+            // writes the state before and the state after an activation are two points
+            let row = sc2["transactions"].values().find(|r| r["seq"].as_u64() == Some(s) && r["space"] == DEFAULT_SPACE).cloned();
+            st.count("oracle_activation_is_a_point_of_the_history");
+            if seq_before > 0 && (s <= seq_before || row.is_none()) {
+                let (entry, hist2) = (shape.entry, history.clone());
+                report_once(st, "C18/activation/no_coordinate_of_its_own_in_a_space_with_history", || {
+                    json!({"what": "the Space had committed writes; the activation changed its Schema Environment and left it at the same sequence: one coordinate, two environments",
+                           "host_api": entry, "first_activation_of_the_space": first_after_writes, "space_seq_before": seq_before, "space_seq_after": s,
+                           "schema_environment_version_before": version_before, "schema_environment_version_after": env_version(&sc2),
+                           "journal_row_at_the_new_sequence": row.is_some(), "case": case, "history": hist2})
+                });
+                history.push(json!({"host": shape.entry, "lock": format!("{to:?}"), "seq": s, "note": "took no coordinate of its own"}));
+                continue;
+            }
+            let row = row.ok_or("activation left no journal row")?;
             seq = s;
             tx_id = row["tx_id"].as_str().unwrap_or("").to_string();
             committed_at = row["committed_at"].as_str().unwrap_or("").to_string();
-            kinds = match to {
+            let mut ks = match to {
                 Env::Core => vec!["schema_activation_core_only"],
                 Env::Plain => vec!["schema_activation_profile", "schema_activation_reads_plain"],
                 Env::Functional => vec!["schema_activation_profile", "schema_activation_reads_functional"],
             };
-            history.push(json!({"host": "activate_schema", "lock": format!("{to:?}"), "seq": s}));
+            if first_after_writes {
+                ks.push("first_activation_after_committed_writes");
+            }
+            kinds = ks;
+            history.push(json!({"host": shape.entry, "lock": format!("{to:?}"), "seq": s}));
         } else {
             if core_only_left > 1 {
                 core_only_left -= 1;
             }
-            let mut stmt = gen_stmt(rng, &mut g, &w, None, &CFG_C18);
+            let mut stmt = if shape.late && env == Env::Core && rng.chance(3, 4) { core_statement(rng, &mut g, &w) } else { gen_stmt(rng, &mut g, &w, None, &CFG_C18) };
             if env != Env::Core && rng.chance(1, 5) {
                 if let Some(cmd) = reads_statement(rng, &w) {
                     stmt.cmd = cmd;
@@ -797,6 +1109,7 @@ async fn hist_case_async(case: u64, rng: &mut Rng, st: &mut Stats, n_commits: us
                     stmt.kinds = vec!["shelve_connected_element"];
                 }
             }
+            stmt.cmd.space = space_opt.clone();
             let out = exec(&Via::System(&nexus), &stmt.cmd).await?;
             history.push(json!({"cmd": stmt.cmd.describe(),
                 "outcome": if out.committed() { format!("{}@{}", out.receipt_status, out.space_seq.unwrap_or(0)) } else { format!("refused:{}", out.error_code) }}));
@@ -804,7 +1117,7 @@ async fn hist_case_async(case: u64, rng: &mut Rng, st: &mut Stats, n_commits: us
                 st.count("history_statements_refused");
                 // a refusal that leaves something behind is C17's finding; it would make this
                 // history something other than a sequence of whole commits
-                if masked(&scan(&nexus).await?) != masked(&sc) {
+                if masked(&scan_in(&nexus, &space).await?) != masked(&sc) {
                     st.count(&format!("history_abandoned_refused_statement_changed_state(C17):{}", out.error_code));
                     return Ok(());
                 }
@@ -817,28 +1130,7 @@ async fn hist_case_async(case: u64, rng: &mut Rng, st: &mut Stats, n_commits: us
             tx_id = out.tx_id.clone().unwrap_or_default();
             committed_at = out.committed_at.clone().unwrap_or_default();
             // the kinds that really changed something, from the receipt's change list
-            let mut ks: Vec<&'static str> = vec![];
-            for (id, op, _) in out.changes() {
-                let kind = match (op.as_str(), &id[..1]) {
-                    ("create", "C") => "create_concept",
-                    ("create", "P") => "create_proposition",
-                    ("create", "A") => "create_assertion",
-                    ("create", "E") => "create_evidence",
-                    ("create", "X") => "create_activity",
-                    ("update", "P") => "update_proposition",
-                    ("update", _) => "update_concept",
-                    ("archive", _) => "archive",
-                    ("tombstone", _) => "tombstone",
-                    ("retract", _) => "retract",
-                    ("supersede", _) => "supersede",
-                    ("merge", _) => "merge",
-                    ("set_retention", _) => "set_retention",
-                    ("transition", _) => "transition",
-                    ("correct", _) => "correct_evidence",
-                    _ => "other",
-                };
-                ks.push(kind);
-            }
+            let mut ks = kinds_of_changes(&out);
             for k in &stmt.kinds {
                 if matches!(*k, "update_again" | "update_sweep" | "upsert_hit" | "assert_sugar" | "reads_claims_functional" | "reads_claims_plain" | "shelve_connected_element") {
                     ks.push(k);
@@ -852,14 +1144,18 @@ async fn hist_case_async(case: u64, rng: &mut Rng, st: &mut Stats, n_commits: us
             kinds_seen.insert(k);
         }
         // --- record the battery at this coordinate
-        let sc = scan(&nexus).await?;
+        let sc = scan_in(&nexus, &space).await?;
         if space_seq(&sc) != seq {
             return Err(format!("space counter {} is not the commit sequence {seq}", space_seq(&sc)));
+        }
+        if env_version(&sc) == 0 {
+            st.count("coordinates_recorded_under_schema_environment_0");
         }
         let all = world_all(&sc);
         let act = world_active(&all);
         let mut qs = vec![];
-        for qu in battery(&act, &all, &sc, rng) {
+        for mut qu in battery(&act, &all, &sc, rng) {
+            qu.space = space_opt.clone();
             let a = ask(&nexus, &qu, "").await?;
             st.count("battery_recorded");
             st.count(&format!("recorded_family:{}", qu.family));
@@ -896,64 +1192,587 @@ async fn hist_case_async(case: u64, rng: &mut Rng, st: &mut Stats, n_commits: us
                 st.count("coordinates_replayed_after_a_later_commit");
                 // quick tier: a seeded half of the battery here (all of it at the end)
                 let sub: Option<BTreeSet<usize>> = if mid_replays == 0 { Some((0..rec.qs.len()).filter(|_| rng.bool()).collect()) } else { None };
-                replay_one(&nexus, rec, "SEQ", &format!("AS OF SEQ {}", rec.seq), &since, sub.as_ref(), None, st, &cx).await?;
+                replay_one(&nexus, rec, "SEQ", &format!("AS OF SEQ {}", rec.seq), &since, sub.as_ref(), None, None, st, &cx).await?;
             }
         }
     }
     // --- the end: every coordinate, every query, every form
-    let sc = scan(&nexus).await?;
+    let sc = scan_in(&nexus, &space).await?;
     let hist2 = history.clone();
     let cx = move || json!({"case": case, "history": hist2});
-    let journal: Vec<(u64, String)> = sc["transactions"].values().filter(|r| r["space"] == DEFAULT_SPACE)
-        .map(|r| (r["seq"].as_u64().unwrap_or(0), r["committed_at"].as_str().unwrap_or("").to_string())).collect();
-    for i in 0..recorded.len() {
-        let rec = &recorded[i];
-        let since: BTreeSet<&'static str> = recorded[i + 1..].iter().flat_map(|r| r.kinds.iter().copied()).collect();
-        st.count("coordinates_replayed_at_the_end");
-        let diff = replay_one(&nexus, rec, "SEQ", &format!("AS OF SEQ {}", rec.seq), &since, None, None, st, &cx).await?;
-        // TX and TIME resolve to the same coordinate; a seeded third of the battery each
-        let sub: BTreeSet<usize> = (0..rec.qs.len()).filter(|_| rng.chance(1, 3)).collect();
-        replay_one(&nexus, rec, "TX", &format!("AS OF TX {}", jstr(&rec.tx_id)), &since, Some(&sub), Some(&diff), st, &cx).await?;
-        // AS OF TIME names the last commit at or before the instant: usable when no later
-        // journal row carries the same (or an earlier) timestamp
-        let unique = journal.iter().all(|(s, at)| *s <= rec.seq || at.as_str() > rec.committed_at.as_str())
-            && journal.iter().all(|(s, at)| *s >= rec.seq || at.as_str() <= rec.committed_at.as_str());
-        if unique && !rec.committed_at.is_empty() {
-            let sub: BTreeSet<usize> = (0..rec.qs.len()).filter(|_| rng.chance(1, 3)).collect();
-            replay_one(&nexus, rec, "TIME", &format!("AS OF TIME {}", jstr(&rec.committed_at)), &since, Some(&sub), Some(&diff), st, &cx).await?;
-        } else {
-            st.count("as_of_time_skipped_equal_commit_timestamps");
-        }
-        // the token SNAPSHOT AS OF SEQ s hands out binds a whole request to s (KQL only)
-        match read(&nexus, &format!("SNAPSHOT AS OF SEQ {}", rec.seq)).await {
-            Ok(snap) if snap["snapshot_token"].is_string() => {
-                let sub: BTreeSet<usize> = (0..rec.qs.len()).filter(|i| rec.qs[*i].0.family != "meta_as_of" && rng.chance(1, 5)).collect();
-                let form = format!("{TOKEN_FORM}{}", snap["snapshot_token"].as_str().unwrap_or(""));
-                replay_one(&nexus, rec, "TOKEN", &form, &since, Some(&sub), Some(&diff), st, &cx).await?;
-            }
-            other => report_once(st, "C18/snapshot_as_of_issues_no_token", || json!({"seq": rec.seq, "answer": format!("{other:?}"), "context": cx()})),
-        }
-    }
-    // coordinate 0 is the empty Space, whatever happened later
-    for qu in [q("element", "FIND(?c) WHERE { ?c CONCEPT {} }"), q("tuple", "FIND(?p) WHERE { ?p PROPOSITION (?s, ?pr, ?o) }"), q("aggregate", "FIND(COUNT(?a)) WHERE { ?a ASSERTION {} }")] {
-        let got = ask(&nexus, &qu, "AS OF SEQ 0").await?;
-        st.count("replayed:SEQ0");
-        let ok = match &got {
-            Ok(v) => v.as_array().map(|a| a.is_empty() || a == &vec![json!(0)]).unwrap_or(false),
-            Err(_) => false,
-        };
-        if !ok {
-            report_once(st, "C18/replay/coordinate_zero_not_empty", || json!({"query": qu.text("AS OF SEQ 0"), "answer": format!("{got:?}"), "context": cx()}));
-        }
-    }
+    final_replay(&nexus, &recorded, &sc, &space_opt, rng, st, &cx).await?;
     check_payloads(&sc, st, &cx);
     if recorded.len() >= n_commits / 2 && kinds_seen.len() >= 6 {
         st.distinct(vcore::hash_debug(&history));
     }
     st.max("max_commits_in_a_history", recorded.len() as u64);
-    st.sample(|| json!({"monitor": "record/replay", "case": case, "commits": recorded.len(),
+    st.sample(|| json!({"monitor": "record/replay", "section": shape.section, "case": case, "commits": recorded.len(),
         "kinds": kinds_seen, "first_statements": history.iter().take(4).collect::<Vec<_>>()}));
     Ok(())
+}
+
+// ---------------------------------------------------------------------------------------------
+// refused statements, dry runs and the one statement that may remove the past
+//
+// "Only an explicit purge removes the past": a statement that was REFUSED - while it was planned,
+// by the commit-time validation of its write set, by the session's authority - or that was a dry
+// run is not a purge, whatever clauses it contained. Small histories; at every coordinate a part
+// of the battery plus one by-id query per element is recorded; then statements that cannot commit
+// are executed (generated blocks mixing CREATE / UPDATE / ARCHIVE / MERGE / RETRACT / SUPERSEDE
+// ... with PURGE clauses that pass planning and one clause that refuses), and after each of them
+// the recorded answers are replayed. At the end one PURGE is committed: it may change the past of
+// the elements it erased, and of nothing else.
+
+const OTHER_SPACE: &str = "kip:space:other";
+const RESTRICTED: &str = "kip:principal:restricted";
+const CFG_BODY: GenCfg = GenCfg { fail_pct: 0, dry_pct: 0, restricted: false, retries: false, no_effect: false, commit_time_failures: false };
+
+fn by_id_queries(all: &World) -> Vec<Q> {
+    let mut v = vec![];
+    let groups: [(&[El], &str); 5] = [
+        (&all.concepts, "FIND(?c) WHERE { ?c CONCEPT {id: @@} }"),
+        (&all.props, "FIND(?p) WHERE { ?p PROPOSITION (id: @@) }"),
+        (&all.assertions, "FIND(?a) WHERE { ?a ASSERTION {id: @@} }"),
+        (&all.evidence, "FIND(?e) WHERE { ?e EVIDENCE {id: @@} }"),
+        (&all.activities, "FIND(?x) WHERE { ?x ACTIVITY {id: @@} }"),
+    ];
+    for (els, shape) in groups {
+        for e in els {
+            let mut x = q("by_id", shape.replace("@@", &jstr(&e.id)));
+            x.about = Some(e.id.clone());
+            v.push(x);
+        }
+    }
+    v
+}
+
+/// `MUTATE {\n  c1\n  c2\n}` (the generator's layout: one clause per line) or one bare clause
+fn clauses_of(text: &str) -> Vec<String> {
+    match text.strip_prefix("MUTATE {\n") {
+        Some(rest) => rest.lines().map(|l| l.trim().to_string()).filter(|l| !l.is_empty() && l != "}").collect(),
+        None => vec![text.to_string()],
+    }
+}
+
+struct Refusal {
+    cmd: Cmd,
+    /// why the statement cannot commit
+    class: &'static str,
+    /// "planning" | "commit" | "session" | "dry_run"
+    when: &'static str,
+    /// PURGE clauses that pass planning stand in the block ...
+    purges: usize,
+    /// ... in front of the clause that refuses (commit-time classes: the position is irrelevant)
+    purge_first: bool,
+    restricted: bool,
+    body_kinds: Vec<&'static str>,
+}
+
+fn legal_hold(row: &Value) -> bool {
+    row["retention"]["legal_hold"].as_bool().unwrap_or(false)
+}
+
+/// A statement that cannot commit in the current state, or a dry run.
+fn gen_refusal(rng: &mut Rng, g: &mut Gen, w: &World, sc: &Scan) -> Refusal {
+    let rows = elements(sc);
+    let texts: BTreeMap<String, String> = rows.iter().map(|(id, r)| (id.clone(), canon(r))).collect();
+    let referenced = |id: &str| -> bool {
+        let needle = jstr(id);
+        texts.iter().any(|(other, t)| other != id && t.contains(&needle))
+    };
+    let every: Vec<&El> = w.concepts.iter().chain(&w.props).chain(&w.assertions).chain(&w.evidence).chain(&w.activities).collect();
+    let held: Vec<&El> = every.iter().copied().filter(|e| rows.get(&e.id).map(|r| legal_hold(r)).unwrap_or(false) && e.state != "purged").collect();
+    let active_concepts = World::active(&w.concepts);
+
+    let when = *rng.pick(&["planning", "planning", "planning", "commit", "commit", "commit", "commit", "session", "dry_run", "dry_run"]);
+    // --- the body: what an ordinary statement would do
+    let base = gen_stmt(rng, g, w, None, &CFG_BODY);
+    let mut params = base.cmd.params.clone();
+    let mut body: Vec<String> = clauses_of(&base.cmd.text);
+    let mut body_kinds = base.kinds.clone();
+    let preview = when == "dry_run" && rng.bool();
+    if when == "session" || (preview && !params.is_empty()) || rng.chance(1, 5) {
+        body.clear();
+        body_kinds.clear();
+        params.clear();
+    }
+    // explicit lifecycle clauses next to whatever the generator planned: the block then mixes
+    // ARCHIVE / TOMBSTONE / MERGE / UPDATE / RETRACT / SET RETENTION with the PURGE clauses
+    if when != "session" {
+        let named = |body: &Vec<String>, id: &str| body.iter().any(|c| c.contains(&jstr(id))) || params.values().any(|v| v.as_str() == Some(id));
+        for _ in 0..rng.weighted(&[25, 40, 35]) {
+            let free: Vec<&El> = active_concepts.iter().copied().filter(|c| !named(&body, &c.id) && !held.iter().any(|h| h.id == c.id)).collect();
+            let claims: Vec<&El> = w.assertions.iter().filter(|a| a.state == "active" && a.status == "active" && !named(&body, &a.id)).collect();
+            match rng.below(6) {
+                0 | 1 if free.len() >= 2 => {
+                    let (a, b) = (*rng.pick(&free), *rng.pick(&free));
+                    if a.id != b.id {
+                        body.push(format!("MERGE CONCEPT {} INTO {}", jstr(&a.id), jstr(&b.id)));
+                        body_kinds.push("merge");
+                    }
+                }
+                2 if !free.is_empty() => {
+                    let e = *rng.pick(&free);
+                    let verb = if rng.bool() { "ARCHIVE" } else { "TOMBSTONE" };
+                    body.push(format!("{verb} {}", jstr(&e.id)));
+                    body_kinds.push(if verb == "ARCHIVE" { "archive" } else { "tombstone" });
+                }
+                3 if !claims.is_empty() => {
+                    body.push(format!("RETRACT ASSERTION {}", jstr(&rng.pick(&claims).id)));
+                    body_kinds.push("retract");
+                }
+                4 if !free.is_empty() => {
+                    body.push(format!("SET RETENTION {} {{ retention_class: \"standard\", expires_at: \"2035-01-01T00:00:00Z\" }}", jstr(&rng.pick(&free).id)));
+                    body_kinds.push("set_retention");
+                }
+                _ if !free.is_empty() => {
+                    body.push(format!("UPDATE {} SET ATTRIBUTES {{note: {}}}", jstr(&rng.pick(&free).id), rng.below(1000)));
+                    body_kinds.push("update_concept");
+                }
+                _ => {}
+            }
+        }
+    }
+    let body_text = body.join("\n");
+    let body_ids: BTreeSet<String> = params.values().filter_map(|v| v.as_str().map(|s| s.to_string())).collect();
+    let untouched = |id: &str| !body_text.contains(&jstr(id)) && !body_ids.contains(id);
+
+    // --- PURGE clauses that pass planning
+    let mut purge_clauses: Vec<String> = vec![];
+    let n_purges = if matches!(when, "session" | "dry_run") { 1 + rng.usize(2) } else { rng.weighted(&[20, 55, 25]) };
+    let candidates: Vec<&El> = every.iter().copied()
+        .filter(|e| matches!(e.state.as_str(), "active" | "archived" | "tombstoned") && !held.iter().any(|h| h.id == e.id) && untouched(&e.id))
+        .collect();
+    for _ in 0..n_purges {
+        if candidates.is_empty() {
+            break;
+        }
+        let e = *rng.pick(&candidates);
+        if purge_clauses.iter().any(|c| c.contains(&jstr(&e.id))) {
+            continue;
+        }
+        let form = rng.below(10);
+        let clause = if form == 0 && !preview {
+            params.insert(format!("victim{}", purge_clauses.len()), json!(e.id));
+            format!("PURGE :victim{} REFERENCE POLICY \"tombstone_reference\" CONFIRM \"PURGE\"", purge_clauses.len())
+        } else if form == 1 && w.active_of_type("Insight").iter().any(|c| untouched(&c.id)) && purge_clauses.is_empty() {
+            format!("PURGE ?victim WHERE {{ ?victim CONCEPT {{type: \"Insight\"}} }} LIMIT {} REFERENCE POLICY \"tombstone_reference\" CONFIRM \"PURGE\"", rng.range(1, 3))
+        } else if form <= 3 {
+            // erases the dependents too (refused on its own account when one of them is held)
+            format!("PURGE {} REFERENCE POLICY \"authorized_cascade\" CONFIRM \"PURGE\"", jstr(&e.id))
+        } else if !referenced(&e.id) && rng.bool() {
+            format!("PURGE {} CONFIRM \"PURGE\"", jstr(&e.id))
+        } else {
+            format!("PURGE {} REFERENCE POLICY \"tombstone_reference\" CONFIRM \"PURGE\"", jstr(&e.id))
+        };
+        purge_clauses.push(clause);
+    }
+
+    // --- the clause(s) that refuse
+    let uid = g.next();
+    let mut class: &'static str;
+    let mut failing: Vec<String> = vec![];
+    match when {
+        "planning" => {
+            let pick = *rng.pick(&["unknown_type", "missing_id", "expect_version", "expect_state", "constraint", "immutable_field", "purge_denied", "purge_denied", "legal_hold", "legal_hold", "bad_policy", "unbound_param"]);
+            class = pick;
+            match pick {
+                "missing_id" => failing.push(rng.pick(&["UPDATE \"C-99999\" SET ATTRIBUTES {x: 1}", "RETRACT ASSERTION \"A-99999\"", "ARCHIVE \"E-99999\"", "PURGE \"C-99999\" CONFIRM \"PURGE\""]).to_string()),
+                "expect_version" if !active_concepts.is_empty() => {
+                    let e = *rng.pick(&active_concepts);
+                    failing.push(format!("UPDATE {} EXPECT VERSION {} SET ATTRIBUTES {{x: 1}}", jstr(&e.id), e.version + 2 + rng.below(4)));
+                }
+                "expect_state" if !active_concepts.is_empty() => {
+                    let e = *rng.pick(&active_concepts);
+                    failing.push(format!("ARCHIVE {} EXPECT STATE \"tombstoned\"", jstr(&e.id)));
+                }
+                "constraint" => failing.push(format!("CREATE CONCEPT ?y{uid} {{ TYPE \"Insight\" NAME \"no summary\" }}")),
+                "immutable_field" if !active_concepts.is_empty() => {
+                    let e = *rng.pick(&active_concepts);
+                    failing.push(format!("UPDATE {} SET FIELDS {{key: \"moved\"}}", jstr(&e.id)));
+                }
+                "purge_denied" => {
+                    // the default policy refuses while anything points at the target
+                    let ends: Vec<String> = World::active(&w.props).iter().flat_map(|p| [p.subject.clone(), p.object.clone()]).filter(|id| !id.is_empty()).collect();
+                    if !ends.is_empty() {
+                        failing.push(format!("PURGE {} CONFIRM \"PURGE\"", jstr(rng.pick(&ends).as_str())));
+                    }
+                }
+                "legal_hold" if held.iter().any(|h| untouched(&h.id)) => {
+                    // (a SET RETENTION of the body on the same element would lift the hold first)
+                    let still: Vec<&El> = held.iter().copied().filter(|h| untouched(&h.id)).collect();
+                    let h = *rng.pick(&still);
+                    let policy = *rng.pick(&["", " REFERENCE POLICY \"tombstone_reference\""]);
+                    failing.push(format!("PURGE {}{policy} CONFIRM \"PURGE\"", jstr(&h.id)));
+                }
+                "bad_policy" if !candidates.is_empty() => failing.push(format!("PURGE {} REFERENCE POLICY \"delete_everything\" CONFIRM \"PURGE\"", jstr(&rng.pick(&candidates).id))),
+                "unbound_param" => failing.push(format!("UPDATE :unbound{uid} SET ATTRIBUTES {{x: 1}}")),
+                _ => {}
+            }
+            if failing.is_empty() {
+                class = "unknown_type";
+                failing.push(format!("CREATE CONCEPT ?z{uid} {{ TYPE \"Spaceship\" NAME \"Enterprise\" }}"));
+            }
+        }
+        "commit" => {
+            // decided over the whole write set, after every clause was planned
+            let keyed: Vec<&El> = active_concepts.iter().copied().filter(|c| !c.key.is_empty() && untouched(&c.id)).collect();
+            let pick = rng.below(10);
+            if pick < 4 && !keyed.is_empty() {
+                class = "key_held_by_another_concept";
+                let e = *rng.pick(&keyed);
+                failing.push(if rng.chance(3, 4) {
+                    format!("CREATE CONCEPT ?k{uid} {{ TYPE {} NAME \"dup\" SET FIELDS {{key: {}}} }}", jstr(&e.typ), jstr(&e.key))
+                } else {
+                    // an UPSERT whose own MATCH misses (another type's key) cannot claim ... the
+                    // plain duplicate is the documented conflict; keep to CREATE with attributes
+                    format!("CREATE CONCEPT ?k{uid} {{ TYPE {} NAME \"dup\" SET FIELDS {{key: {}}} SET ATTRIBUTES {{note: 1}} }}", jstr(&e.typ), jstr(&e.key))
+                });
+            } else if pick < 7 || w.foreign_concept.is_none() || preview {
+                class = "one_key_twice_in_the_block";
+                let k = g.name("kd");
+                let typ = *rng.pick(&["Preference", "Person"]);
+                failing.push(format!("CREATE CONCEPT ?k{uid}a {{ TYPE {} NAME \"first\" SET FIELDS {{key: {}}} }}", jstr(typ), jstr(&k)));
+                failing.push(format!("CREATE CONCEPT ?k{uid}b {{ TYPE {} NAME \"second\" SET FIELDS {{key: {}}} }}", jstr(typ), jstr(&k)));
+            } else {
+                class = "reference_into_another_space";
+                params.insert(format!("foreign{uid}"), json!(w.foreign_concept.clone().unwrap_or_default()));
+                failing.push(format!("CREATE CONCEPT ?f{uid} {{ TYPE \"Insight\" NAME \"leaky\" SET ATTRIBUTES {{summary: \"s\"}} SET STRUCTURAL {{ (\"about\", :foreign{uid}) }} }}"));
+            }
+        }
+        "session" => {
+            class = "session_without_the_purge_permission";
+            if rng.bool() {
+                body.push(format!("CREATE CONCEPT ?own{uid} {{ TYPE \"Person\" NAME {} }}", jstr(&g.name("own"))));
+                body_kinds.push("create_concept");
+            }
+        }
+        _ => {
+            class = if preview { "preview_kml" } else { "dry_run_option" };
+        }
+    }
+
+    // --- assembly: the PURGE clauses go in front of the refusing clause two times out of three
+    let purge_first = when == "commit" || rng.chance(2, 3);
+    let mut clauses: Vec<String> = body;
+    rng.shuffle(&mut clauses);
+    let last_failing = failing.pop();
+    let has_fail = last_failing.is_some();
+    let mut at_fail = clauses.len();
+    if let Some(f) = last_failing {
+        at_fail = rng.usize(clauses.len() + 1);
+        clauses.insert(at_fail, f);
+        for f in failing {
+            let at = rng.usize(at_fail + 1);
+            clauses.insert(at, f);
+            at_fail += 1;
+        }
+    }
+    let purges = purge_clauses.len();
+    for p in purge_clauses {
+        let at = if !has_fail {
+            rng.usize(clauses.len() + 1)
+        } else if purge_first {
+            rng.usize(at_fail + 1)
+        } else {
+            at_fail + 1 + rng.usize(clauses.len() - at_fail)
+        };
+        clauses.insert(at.min(clauses.len()), p);
+        if has_fail && at <= at_fail {
+            at_fail += 1;
+        }
+    }
+    if clauses.is_empty() {
+        clauses.push(format!("CREATE CONCEPT ?z{uid} {{ TYPE \"Spaceship\" NAME \"Enterprise\" }}"));
+        class = "unknown_type";
+    }
+    let text = if clauses.len() == 1 && rng.bool() { clauses[0].clone() } else { format!("MUTATE {{\n  {}\n}}", clauses.join("\n  ")) };
+    let mut cmd = Cmd::new(text);
+    cmd.params = params;
+    if when == "dry_run" {
+        if preview {
+            let inner = cmd.text.clone();
+            cmd = Cmd::new("PREVIEW KML :kml").param("kml", json!(inner));
+        } else {
+            cmd.dry_run = true;
+        }
+    }
+    Refusal { cmd, class, when, purges, purge_first, restricted: when == "session", body_kinds }
+}
+
+fn refused_case(case: u64, rng: &mut Rng, st: &mut Stats, n_commits: usize, n_refusals: usize) {
+    set_case("refused", case);
+    let r = vcore::run::block_on(refused_case_async(case, rng, st, n_commits, n_refusals));
+    if let Err(e) = r {
+        st.inconclusive(format!("C18 refused: harness trouble: {e}"));
+    }
+}
+
+/// Records a seeded part of the battery and one by-id query per element at the current point.
+async fn record_point(nexus: &CognitiveNexus, out: &Outcome, kinds: Vec<&'static str>, rng: &mut Rng, st: &mut Stats) -> Result<Recorded, String> {
+    let sc = scan(nexus).await?;
+    let seq = out.space_seq.unwrap_or(0);
+    if space_seq(&sc) != seq {
+        return Err(format!("space counter {} is not the commit sequence {seq}", space_seq(&sc)));
+    }
+    let all = world_all(&sc);
+    let act = world_active(&all);
+    let mut qs = vec![];
+    let part: Vec<Q> = battery(&act, &all, &sc, rng).into_iter().filter(|_| rng.chance(1, 3)).collect();
+    for qu in part.into_iter().chain(by_id_queries(&all)) {
+        let a = ask(nexus, &qu, "").await?;
+        st.count("battery_recorded");
+        st.count(&format!("recorded_family:{}", qu.family));
+        if let Err(code) = &a {
+            st.count(&format!("battery_recorded_error_answers:{code}"));
+        }
+        qs.push((qu, a));
+    }
+    st.count("history_commits");
+    for k in &kinds {
+        st.count(&format!("commit_kind:{k}"));
+    }
+    std::thread::sleep(std::time::Duration::from_micros(1200));
+    Ok(Recorded { seq, tx_id: out.tx_id.clone().unwrap_or_default(), committed_at: out.committed_at.clone().unwrap_or_default(), kinds, qs })
+}
+
+async fn refused_case_async(case: u64, rng: &mut Rng, st: &mut Stats, n_commits: usize, n_refusals: usize) -> Result<(), String> {
+    let disk: Arc<dyn object_store::ObjectStore> = Arc::new(InMemory::new());
+    let nexus = open_nexus(disk, &format!("c18_refused_{case}")).await?;
+    activate_profile(&nexus).await?;
+    let gov = nexus.governance();
+    gov.ensure_principal(PrincipalDraft {
+        principal_id: RESTRICTED.into(),
+        principal_class: principal_class::AGENT.to_string(),
+        display_name: "restricted".into(),
+        auth_provider: "verif".into(),
+        auth_subject: "restricted".into(),
+    })
+    .await
+    .map_err(|e| format!("{e:?}"))?;
+    // may read, create and update anything - and may not purge, archive or merge
+    gov.create_grant(
+        GrantDraft {
+            space_id: DEFAULT_SPACE.into(),
+            grantee_principal: RESTRICTED.into(),
+            actions: vec!["read".into(), "create".into(), "update".into()],
+            scope: AuthorityScope::default(),
+            ..Default::default()
+        },
+        SYSTEM_PRINCIPAL,
+    )
+    .await
+    .map_err(|e| format!("{e:?}"))?;
+    nexus.store.open_or_create_space(SpaceDraft { space_id: OTHER_SPACE.into(), name: "other".into(), owner_principal: SYSTEM_PRINCIPAL.into(), ..Default::default() })
+        .await.map_err(|e| format!("{e:?}"))?;
+    nexus.activate_schema(OTHER_SPACE, profile_lock()).await.map_err(|e| format!("{e:?}"))?;
+    let mut c = Cmd::new("CREATE CONCEPT ?f { TYPE \"Person\" NAME \"foreigner\" }");
+    c.space = Some(OTHER_SPACE.into());
+    if !exec(&Via::System(&nexus), &c).await?.committed() {
+        return Err("seeding the other Space failed".into());
+    }
+    let restricted: Session = nexus.session(AuthContext::principal(RESTRICTED));
+
+    let mut g = Gen { uid: 0, tag: format!("r{case}") };
+    let mut recorded: Vec<Recorded> = vec![];
+    let mut history: Vec<Value> = vec![];
+    // --- a scripted opening: keyed Concepts (holders for the commit-time key conflict),
+    // referenced and unreferenced elements of every kind, an element under a legal hold; every
+    // element gets a second version so that its past is more than one row
+    let t = g.tag.clone();
+    let open1 = format!(
+        "MUTATE {{\n  CREATE CONCEPT ?p1 {{ TYPE \"Person\" NAME \"p1{t}\" SET FIELDS {{key: \"k1{t}\"}} }}\n  \
+         CREATE CONCEPT ?p2 {{ TYPE \"Person\" NAME \"p2{t}\" SET FIELDS {{key: \"k2{t}\"}} SET ATTRIBUTES {{note: 7}} }}\n  \
+         CREATE CONCEPT ?pf {{ TYPE \"Preference\" NAME \"pf{t}\" SET FIELDS {{key: \"k3{t}\"}} }}\n  \
+         CREATE CONCEPT ?i1 {{ TYPE \"Insight\" NAME \"i1{t}\" SET ATTRIBUTES {{summary: \"first draft\"}} }}\n  \
+         CREATE CONCEPT ?i2 {{ TYPE \"Insight\" NAME \"i2{t}\" SET ATTRIBUTES {{summary: \"about p1\"}} SET STRUCTURAL {{ (\"about\", ?p1) }} }}\n  \
+         CREATE CONCEPT ?hv {{ TYPE \"Event\" NAME \"hv{t}\" SET ATTRIBUTES {{summary: \"kept for the lawyers\"}} }}\n  \
+         ENSURE PROPOSITION ?q (?p1, \"prefers\", ?pf)\n  \
+         CREATE EVIDENCE ?e1 {{ SET FIELDS {{evidence_class: \"user_statement\", payload: \"e1{t}\"}} }}\n  \
+         CREATE EVIDENCE ?e2 {{ SET FIELDS {{evidence_class: \"user_statement\", payload: \"e2{t}\"}} }}\n  \
+         CREATE ASSERTION ?a1 {{ SET FIELDS {{proposition: ?q, asserted_by: ?p1, stance: \"support\", mode: \"stated\", confidence: 0.7}} SET STRUCTURAL {{ (\"evidence\", ?e1) {{role: \"support\"}} }} }}\n  \
+         CREATE ACTIVITY ?x1 {{ SET FIELDS {{activity_class: \"reflection\"}} }}\n}}"
+    );
+    let o1 = exec(&Via::System(&nexus), &Cmd::new(open1.clone())).await?;
+    if !o1.committed() {
+        return Err(format!("scripted opening refused: {} {}", o1.error_code, o1.error_message));
+    }
+    history.push(json!({"cmd": open1, "outcome": format!("committed@{}", o1.space_seq.unwrap_or(0))}));
+    let h = |n: &str| o1.handle(n).ok_or(format!("no handle {n}"));
+    let (i1, i2, hv, p2) = (h("i1")?, h("i2")?, h("hv")?, h("p2")?);
+    recorded.push(record_point(&nexus, &o1, kinds_of_changes(&o1), rng, st).await?);
+    let open2 = format!(
+        "MUTATE {{\n  UPDATE {} SET ATTRIBUTES {{summary: \"second draft\", note: 5}}\n  UPDATE {} SET FIELDS {{name: \"i2{t}, revised\"}}\n  \
+         UPDATE {} SET ATTRIBUTES {{note: 8}}\n  SET RETENTION {} {{ legal_hold: true }}\n}}",
+        jstr(&i1), jstr(&i2), jstr(&p2), jstr(&hv)
+    );
+    let o2 = exec(&Via::System(&nexus), &Cmd::new(open2.clone())).await?;
+    if !o2.committed() {
+        return Err(format!("scripted second statement refused: {} {}", o2.error_code, o2.error_message));
+    }
+    history.push(json!({"cmd": open2, "outcome": format!("committed@{}", o2.space_seq.unwrap_or(0))}));
+    recorded.push(record_point(&nexus, &o2, kinds_of_changes(&o2), rng, st).await?);
+    // --- a few generated commits
+    let mut attempts = 0;
+    while recorded.len() < n_commits && attempts < n_commits * 3 {
+        attempts += 1;
+        let sc = scan(&nexus).await?;
+        let w = world_of(&sc);
+        let stmt = gen_stmt(rng, &mut g, &w, None, &CFG_C18);
+        let out = exec(&Via::System(&nexus), &stmt.cmd).await?;
+        history.push(json!({"cmd": stmt.cmd.describe(),
+            "outcome": if out.committed() { format!("{}@{}", out.receipt_status, out.space_seq.unwrap_or(0)) } else { format!("refused:{}", out.error_code) }}));
+        if !out.committed() {
+            continue;
+        }
+        recorded.push(record_point(&nexus, &out, kinds_of_changes(&out), rng, st).await?);
+    }
+    // --- statements that cannot commit, and dry runs
+    let mut ended_early = false;
+    for _ in 0..n_refusals {
+        let sc = scan(&nexus).await?;
+        let w = world_of(&sc);
+        let r = gen_refusal(rng, &mut g, &w, &sc);
+        let via = if r.restricted { Via::Session(&restricted) } else { Via::System(&nexus) };
+        let out = exec(&via, &r.cmd).await?;
+        if let Some(p) = &out.parse_error {
+            return Err(format!("generated statement does not parse: {p}: {}", r.cmd.text));
+        }
+        history.push(json!({"cmd": r.cmd.describe(), "session": if r.restricted { RESTRICTED } else { "system" }, "intended": format!("{}:{}", r.when, r.class),
+            "outcome": if out.committed() { format!("{}@{}", out.receipt_status, out.space_seq.unwrap_or(0)) } else if out.succeeded { "dry run".to_string() } else { format!("refused:{}", out.error_code) }}));
+        if out.committed() {
+            // the state offered no sure refusal after all: an ordinary commit (possibly a real
+            // purge); the case ends here, nothing is judged
+            st.count(&format!("statement_meant_to_be_refused_committed:{}", r.class));
+            ended_early = true;
+            break;
+        }
+        let since_kind: &'static str = match (r.when, out.succeeded) {
+            ("dry_run", true) => "dry_run_not_committed",
+            ("planning", _) => "refused_while_planned",
+            ("commit", _) => "refused_at_commit",
+            ("session", _) => "refused_for_the_session",
+            _ => "refused_dry_run",
+        };
+        st.count("statements_not_committed");
+        st.count(&format!("not_committed:{since_kind}"));
+        st.count(&format!("not_committed_class:{}:{}", r.class, if out.succeeded { "dry_run" } else { out.error_code.as_str() }));
+        for k in &r.body_kinds {
+            st.count(&format!("not_committed_with_clause:{k}"));
+        }
+        // a PURGE that passed planning (was staged) in a statement that was then refused: by a
+        // later clause, or by the validation of the write set
+        let late_code = matches!(out.error_code.as_str(), "IdentityConflict" | "StructuralReferenceInvalid");
+        if r.purges > 0 && r.when == "commit" && !out.succeeded && !matches!(out.error_code.as_str(), "PurgeDenied" | "LegalHoldConflict" | "NotAuthorized") {
+            st.count("refused_at_commit_with_a_planned_purge");
+            if late_code {
+                st.count("refused_at_commit_with_a_planned_purge:by_the_write_set_validation");
+            }
+        }
+        if r.purges > 0 && r.when == "planning" && r.purge_first && !out.succeeded {
+            st.count("refused_while_planned_with_a_purge_clause_in_front");
+        }
+        if r.purges > 0 && r.when == "dry_run" && out.succeeded {
+            st.count("dry_run_with_a_purge_clause");
+        }
+        if r.purges > 0 && r.when == "session" {
+            st.count("refused_for_the_session_with_a_purge_clause");
+        }
+        // --- replay: every recorded by-id answer about an element the statement named, at every
+        // coordinate; half of everything recorded at the latest coordinate and at a seeded one
+        let hay: String = std::iter::once(r.cmd.text.clone()).chain(r.cmd.params.values().filter_map(|v| v.as_str().map(|s| s.to_string()))).collect::<Vec<_>>().join("\n");
+        let mentioned = |id: &str| hay.contains(&jstr(id)) || r.cmd.params.values().any(|v| v.as_str() == Some(id));
+        let since: BTreeSet<&'static str> = [since_kind].into_iter().collect();
+        let hist2 = history.clone();
+        let cx = move || json!({"case": case, "history": hist2});
+        let n = recorded.len();
+        let wide: BTreeSet<usize> = [n - 1, rng.usize(n)].into_iter().collect();
+        let mut changed_the_past = false;
+        for (ri, rec) in recorded.iter().enumerate() {
+            let mut only: BTreeSet<usize> = rec.qs.iter().enumerate().filter(|(_, (qu, _))| qu.about.as_deref().map(&mentioned).unwrap_or(false)).map(|(i, _)| i).collect();
+            if r.cmd.text.contains("?victim WHERE") {
+                // the selector form names its targets by type
+                only.extend(rec.qs.iter().enumerate().filter(|(_, (qu, a))| qu.about.is_some() && a.as_ref().map(|v| canon(v).contains("Insight")).unwrap_or(false)).map(|(i, _)| i));
+            }
+            if wide.contains(&ri) {
+                only.extend((0..rec.qs.len()).filter(|_| rng.bool()));
+            }
+            if only.is_empty() {
+                continue;
+            }
+            st.count("coordinates_replayed_after_a_statement_that_did_not_commit");
+            let sig = format!("C18/not_a_purge/{since_kind}/changed_what_a_past_coordinate_answers");
+            let diff = replay_one(&nexus, rec, "SEQ_after_a_statement_that_did_not_commit", &format!("AS OF SEQ {}", rec.seq), &since, Some(&only), None, Some(&sig), st, &cx).await?;
+            changed_the_past |= !diff.is_empty();
+        }
+        if changed_the_past {
+            // reported; whatever this history answers from here on follows from it
+            st.count("cases_ended_after_a_reported_change_of_the_past");
+            return Ok(());
+        }
+    }
+    if ended_early {
+        return Ok(());
+    }
+    // --- the end: every coordinate, every recorded query, every form
+    let sc = scan(&nexus).await?;
+    let hist2 = history.clone();
+    let cx = move || json!({"case": case, "history": hist2});
+    final_replay(&nexus, &recorded, &sc, &None, rng, st, &cx).await?;
+    check_payloads(&sc, st, &cx);
+    st.sample(|| json!({"monitor": "refused statements", "case": case, "commits": recorded.len(), "last_statements": history.iter().rev().take(3).collect::<Vec<_>>()}));
+
+    // --- the one statement that may remove the past: it removes the past of what it erased
+    let all = world_all(&sc);
+    let rows = elements(&sc);
+    let victims: Vec<&El> = all.concepts.iter().chain(&all.props).chain(&all.assertions).chain(&all.evidence).chain(&all.activities)
+        .filter(|e| matches!(e.state.as_str(), "active" | "archived" | "tombstoned") && !rows.get(&e.id).map(|r| legal_hold(r)).unwrap_or(false))
+        .collect();
+    if victims.is_empty() {
+        return Ok(());
+    }
+    let victim = (*rng.pick(&victims)).clone();
+    let policy = *rng.pick(&["tombstone_reference", "tombstone_reference", "authorized_cascade"]);
+    let purge = Cmd::new(format!("PURGE {} REFERENCE POLICY {} CONFIRM \"PURGE\"", jstr(&victim.id), jstr(policy)));
+    let out = exec(&Via::System(&nexus), &purge).await?;
+    history.push(json!({"cmd": purge.describe(), "outcome": if out.committed() { format!("{}@{}", out.receipt_status, out.space_seq.unwrap_or(0)) } else { format!("refused:{}", out.error_code) }}));
+    if !out.committed() {
+        st.count(&format!("final_purge_refused:{}", out.error_code));
+        return Ok(());
+    }
+    st.count("purges_committed");
+    st.count(&format!("purges_committed:{policy}"));
+    let after = scan(&nexus).await?;
+    let now = elements(&after);
+    let erased: BTreeSet<String> = now.iter().filter(|(id, r)| r["state"] == "purged" && rows.get(*id).map(|b| b["state"] != "purged").unwrap_or(true)).map(|(id, _)| id.clone()).collect();
+    st.add("elements_erased_by_committed_purges", erased.len() as u64);
+    let hist2 = history.clone();
+    let cx = move || json!({"case": case, "history": hist2, "erased": erased_list(&now)});
+    let since: BTreeSet<&'static str> = ["purge_of_another_element"].into_iter().collect();
+    for rec in &recorded {
+        // answers about another element that do not mention an erased one anywhere
+        let only: BTreeSet<usize> = rec.qs.iter().enumerate()
+            .filter(|(_, (qu, a))| {
+                let text = match a { Ok(v) => canon(v), Err(e) => e.clone() };
+                qu.about.as_ref().map(|id| !erased.contains(id)).unwrap_or(false) && !erased.iter().any(|x| text.contains(&jstr(x)))
+            })
+            .map(|(i, _)| i)
+            .collect();
+        replay_one(&nexus, rec, "SEQ_after_the_purge_of_another_element", &format!("AS OF SEQ {}", rec.seq), &since, Some(&only), None,
+            Some("C18/purge_scope/a_committed_purge_changed_the_past_of_an_element_it_did_not_erase"), st, &cx).await?;
+        // what the erased element's own past answers now is measured, not judged
+        for (qu, live) in rec.qs.iter().filter(|(qu, _)| qu.about.as_ref().map(|id| erased.contains(id)).unwrap_or(false)) {
+            let got = ask(&nexus, qu, &format!("AS OF SEQ {}", rec.seq)).await?;
+            let same = compare(live, &got, qu) == Cmp::Equal;
+            let empty = matches!(&got, Ok(Value::Array(a)) if a.is_empty());
+            st.count(if empty { "past_of_an_erased_element_after_its_purge:no_rows" } else if same { "past_of_an_erased_element_after_its_purge:unchanged" } else { "past_of_an_erased_element_after_its_purge:other" });
+        }
+    }
+    Ok(())
+}
+
+fn erased_list(now: &BTreeMap<String, &Value>) -> Vec<String> {
+    now.iter().filter(|(_, r)| r["state"] == "purged").map(|(id, _)| id.clone()).collect()
 }
 
 fn main() {
@@ -966,16 +1785,42 @@ fn main() {
          with schema activations between three environments: core only, bundled \
          profile + test package 1.0.0 (`reads` an ordinary predicate), bundled profile + test \
          package 2.0.0 (`reads` functional); a history is non-trivial when at least half of the \
-         planned commits landed and >= 6 mutation kinds occurred (distinct by statement texts)",
+         planned commits landed and >= 6 mutation kinds occurred (distinct by statement texts). \
+         Section late_env: such histories in Spaces (default / a second one) whose first activation \
+         (activate_schema / ensure_schema / install_and_activate) follows 1-3 commits of raw \
+         Evidence / Activities under Core alone. Section refused: short histories followed by \
+         generated statements that do not commit (planning-time, commit-time and session refusals, \
+         dry runs) carrying PURGE clauses, then one committed PURGE",
     );
     run.assume("DESCRIBE SCHEMA ENVIRONMENT AS OF adds the member snapshot_seq (the coordinate it was asked for); it is dropped before comparing. SNAPSHOT / DESCRIBE SNAPSHOT are compared whole (the live answer at s names s itself)");
-    run.assume("an answer is the operation's result payload (plus next_cursor for the paged ORDER BY queries); the rest of the response envelope (context.schema_environment_version, space_id, receipt) names the read coordinate/environment and is excluded; nothing inside a payload is excluded");
+    run.assume("an answer is the operation's result payload (plus next_cursor for the paged ORDER BY queries), or the error code it was refused with (an answer that was an error when its coordinate was the present must replay as the same error code); the rest of the response envelope (context.schema_environment_version, space_id, receipt) names the read coordinate/environment and is excluded; nothing inside a payload is excluded");
     run.assume("the row sequence is compared only for queries with ORDER BY (their sort keys are unique per row); the column order inside a row and every list inside an element view are always compared as they are. For the BELIEF families only, the order of the lists inside a projection object (ledger id lists, slot candidates) and - with the aggregates - the last digits of float sums follow the engine's candidate enumeration order; such differences are counted (replay_differs_in_*, reordered_list_tolerated:*), not asserted. Scalar members of a projection (status, scores to 12 digits, `leading`) are asserted");
     run.assume("BELIEF / BELIEF SLOT / FOR TIME queries pin world time with FOR TIME so that `now` never enters an answer");
-    run.assume("AS OF TIME is replayed only for commits whose timestamp differs from every other journal row of the Space (equal timestamps are counted and skipped); SEARCH ... AS OF is documented as unsupported and is not in the battery; PURGE is not generated (the only statement allowed to change the past)");
+    run.assume("AS OF TIME is replayed only for commits whose timestamp differs from every other journal row of the Space (equal timestamps are counted and skipped); SEARCH ... AS OF is documented as unsupported and is not in the battery");
+    run.assume("PURGE is the only statement allowed to change the past. Sections hist / late_env never generate it. Section refused generates it inside statements that do not commit (refused while planned, refused by the commit-time validation of the write set, refused for the session's authority, dry runs): none of them is a purge, every recorded answer must replay unchanged. One PURGE per case is committed at the very end: afterwards only by-id answers about OTHER elements that mention no erased element are asserted; what the erased element's own past answers is counted");
+    run.assume("an activation in a Space that has committed writes is a point of its history (store/history.rs: `An activation is a transaction like any other`; tests/history.rs: a later activation has a real history coordinate): the Space sequence advances and a journal row carries it. The first activation of a Space WITHOUT history takes no coordinate (documented bootstrap) and is not judged");
     run.assume("all reads run as the system Principal (current authorization applies to historical reads by specification)");
     let t = run.tier;
-    run.parallel("hist", t.pick(24, 1200), t.pick(0.9, 0.8), |c, rng, st| hist_case(c, rng, st, t.pick(16, 24), t.pick(0, 3)));
+    let standard = Shape::standard();
+    if run.wants("hist") {
+        run.parallel("hist", t.pick(24, 1200), t.pick(0.9, 0.7), |c, rng, st| hist_case(c, rng, st, t.pick(16, 24), t.pick(0, 3), &standard));
+    }
+    // Spaces whose first activation comes after committed writes: host entry point and Space by
+    // case number, so that every combination occurs in every run
+    if run.wants("late_env") {
+        run.parallel("late_env", t.pick(18, 240), t.pick(0.5, 0.5), |c, rng, st| {
+            let shape = Shape {
+                section: "late_env",
+                space: if (c / 3) % 2 == 1 { SECOND_SPACE.to_string() } else { DEFAULT_SPACE.to_string() },
+                late: true,
+                entry: ["activate_schema", "ensure_schema", "install_and_activate"][(c % 3) as usize],
+            };
+            hist_case(c, rng, st, t.pick(7, 12), t.pick(0, 2), &shape)
+        });
+    }
+    if run.wants("refused") {
+        run.parallel("refused", t.pick(24, 400), t.pick(0.8, 0.8), |c, rng, st| refused_case(c, rng, st, t.pick(5, 8), t.pick(12, 24)));
+    }
     drain_reports(&mut run);
     run.floor("history_commits", 120);
     run.floor("history_reopens", 4);
@@ -1000,5 +1845,38 @@ fn main() {
     run.floor("recorded_reads_beliefs_opposed_by_a_rival_value:Functional", 20);
     run.floor("recorded_reads_beliefs:Plain", 20);
     run.floor_set("replayed_query_x_form", 100);
+    // late_env: Spaces whose first activation is a point in the middle of their history
+    run.floor("first_activations_after_committed_writes", 6);
+    run.floor("first_activation_after_committed_writes_in:default_space", 3);
+    run.floor("first_activation_after_committed_writes_in:second_space", 3);
+    for e in ["activate_schema", "ensure_schema", "install_and_activate"] {
+        run.floor(&format!("first_activation_after_committed_writes_via:{e}"), 2);
+    }
+    run.floor("coordinates_recorded_under_schema_environment_0", 12);
+    run.floor("replayed_after:first_activation_after_committed_writes", 1500);
+    run.floor("replay_equal_error_answers:SchemaSymbolNotFound", 800);
+    run.floor("oracle_activation_is_a_point_of_the_history", 20);
+    // refused: statements that do not commit are not purges; a committed purge erases its targets only
+    run.floor("statements_not_committed", 90);
+    run.floor("not_committed:refused_while_planned", 25);
+    run.floor("not_committed:refused_at_commit", 30);
+    run.floor("not_committed:refused_for_the_session", 7);
+    run.floor("not_committed:dry_run_not_committed", 12);
+    run.floor("refused_at_commit_with_a_planned_purge:by_the_write_set_validation", 25);
+    run.floor("refused_while_planned_with_a_purge_clause_in_front", 12);
+    run.floor("refused_for_the_session_with_a_purge_clause", 7);
+    run.floor("dry_run_with_a_purge_clause", 12);
+    run.floor("not_committed_class:key_held_by_another_concept:IdentityConflict", 10);
+    run.floor("not_committed_class:one_key_twice_in_the_block:IdentityConflict", 10);
+    run.floor("not_committed_class:reference_into_another_space:StructuralReferenceInvalid", 6);
+    run.floor("not_committed_class:legal_hold:LegalHoldConflict", 4);
+    run.floor("not_committed_class:purge_denied:PurgeDenied", 2);
+    for (k, n) in [("merge", 25), ("archive", 8), ("tombstone", 8), ("retract", 12), ("update_concept", 35), ("set_retention", 20), ("create_concept", 100)] {
+        run.floor(&format!("not_committed_with_clause:{k}"), n);
+    }
+    run.floor("replayed:SEQ_after_a_statement_that_did_not_commit", 5000);
+    run.floor("replayed_family:by_id", 4000);
+    run.floor("purges_committed", 8);
+    run.floor("replayed:SEQ_after_the_purge_of_another_element", 500);
     run.finish();
 }
